@@ -413,6 +413,55 @@ def rule_G_WRAPBARE(ctx, repo):
                              '%s wraps `%s` into a one-element list whenever `%s`: collections that do not satisfy the negated test (a set or frozenset of names, dict keys, '
                              'a generator) are taken for ONE entry, which is neither a name nor an index - nothing they list is ignored, so the ignored arguments enter the '
                              'key and the function is evaluated again for every value of them' % (fname, name, unparse(y)[:60]), '%s:%d' % (m.rel, ln))
+    # the same decision written as a fall-through: `if isinstance(spec, (list, tuple, set, frozenset)): return tuple(spec)` ... `return (spec,)` wraps every
+    # collection the enumeration forgot (range, dict keys, deque) into one entry that matches nothing
+    for modname in ('_inspect', 'tools', '_cache', 'safe'):
+        mm = repo.mod(modname)
+        for fname, fi in sorted(mm.functions.items()):
+            fn = fi.node
+            params = [a_.arg for a_ in fn.args.args]
+            if not params:
+                continue
+            parent = {}
+            for x in ast.walk(fn):
+                for c in ast.iter_child_nodes(x):
+                    parent[c] = x
+            for r in ast.walk(fn):
+                if not (isinstance(r, ast.Return) and isinstance(r.value, (ast.Tuple, ast.List)) and len(r.value.elts) == 1 and isinstance(r.value.elts[0], ast.Name)
+                        and r.value.elts[0].id in params):
+                    continue
+                name = r.value.elts[0].id
+                if 'ignor' not in name and 'mask' not in fname and 'ignor' not in fname:
+                    continue
+                n += 1
+                scalar_guard = False
+                cur = r
+                container_before = None
+                while cur in parent and cur is not fn:
+                    p_ = parent[cur]
+                    if isinstance(p_, ast.If) and cur in p_.body and any(isinstance(y, ast.Call) and isinstance(y.func, ast.Name) and y.func.id == 'isinstance' and y.args
+                                                                        and isinstance(y.args[0], ast.Name) and y.args[0].id == name
+                                                                        and any(isinstance(z, ast.Name) and z.id in ('str', 'int', 'Integral', 'bytes', 'unicode', 'basestring')
+                                                                                for z in ast.walk(y.args[1])) for y in ast.walk(p_.test)) \
+                            and not any(isinstance(y, ast.UnaryOp) and isinstance(y.op, ast.Not) for y in ast.walk(p_.test)):
+                        scalar_guard = True
+                    for fld in ('body', 'orelse'):
+                        blk = getattr(p_, fld, None)
+                        if isinstance(blk, list) and cur in blk:
+                            for st_ in blk[:blk.index(cur)]:
+                                if isinstance(st_, ast.If) and st_.body and isinstance(st_.body[-1], ast.Return) and any(
+                                        isinstance(y, ast.Call) and isinstance(y.func, ast.Name) and y.func.id == 'isinstance' and y.args and isinstance(y.args[0], ast.Name)
+                                        and y.args[0].id == name and any(isinstance(z, ast.Name) and z.id in ('list', 'tuple', 'set', 'frozenset', 'dict', 'Sequence', 'Set', 'Iterable')
+                                                                          for z in ast.walk(y.args[1])) for y in ast.walk(st_.test)):
+                                    container_before = st_
+                    cur = p_
+                ok = scalar_guard or container_before is None
+                ctx.ob('G-FORMS', '%s::%s: `return (%s,)` is reached for scalars, not for "everything that is not one of the listed containers"' % (mm.rel, fname, name), ok)
+                if not ok:
+                    ctx.fail('G-FORMS', fi.qual, 'single entry is the fall-through of a container test',
+                             '%s returns `(%s,)` for every value that did not pass `%s`: a specification given as another kind of collection (range(1, 3), dict keys, a deque) '
+                             'becomes one entry that is neither a name nor an index - nothing it lists is ignored, so the ignored arguments change the key'
+                             % (fname, name, ' '.join(unparse(container_before.test).split())[:60]), '%s:%d' % (mm.rel, r.lineno))
     ctx.ob('G-FORMS', 'single-entry wrapping sites examined', True, n=max(n, 1))
 
 
@@ -1454,6 +1503,29 @@ def rule_V_CODEOBJ(ctx, repo):
                  'signature() reads the parameters from the code object (`%s`): a callable whose advertised signature differs from its code - a functools.wraps-style '
                  '(*args, **kwargs) wrapper with `__signature__` set - is then seen without named parameters, where inspect.getfullargspec honours __signature__: '
                  'name- and index-based ignore entries stop matching and ignored arguments change the key' % unparse(y)[:40], '%s:%d' % (m.rel, y.lineno))
+
+
+def rule_V_NONE_GIVEN(ctx, repo):
+    """V-NONE (an argument that is None is given): validate() decides "was this parameter provided" by membership in the tables it builds (`in`,
+    set operations), never from the value a lookup returned: `defaults.get(name) is None` holds for a parameter the caller bound to None, so f(1, None) -
+    a call Python binds without complaint - is reported as missing an argument."""
+    m = repo.mod('_inspect')
+    n = 0
+    for fname in ('validate', 'isvalid'):
+        fi = m.functions.get(fname)
+        if fi is None:
+            raise AnalysisError('anchor vanished: klepto/_inspect.py::%s' % fname)
+        for x in ast.walk(fi.node):
+            if isinstance(x, ast.Compare) and len(x.ops) == 1 and isinstance(x.ops[0], (ast.Is, ast.IsNot, ast.Eq, ast.NotEq)) \
+                    and isinstance(x.comparators[0], ast.Constant) and x.comparators[0].value is None:
+                l = x.left
+                if isinstance(l, ast.Call) and isinstance(l.func, ast.Attribute) and l.func.attr == 'get' and len(l.args) == 1:
+                    n += 1
+                    ctx.ob('V-NONE', '%s: presence of an argument is not read off `%s`' % (fname, unparse(x)[:40]), False)
+                    ctx.fail('V-NONE', fi.qual, 'presence decided by `%s`' % unparse(x)[:50],
+                             '%s takes `%s` for "the argument was not provided": a parameter the caller binds to None (positionally or by keyword) gives the same answer, '
+                             'so a call that gets past argument binding - f(1, None) - is reported invalid' % (fname, unparse(x)[:60]), '%s:%d' % (m.rel, x.lineno))
+    ctx.ob('V-NONE', 'value-based presence tests in validate / isvalid', n == 0)
 
 
 def rule_V_NAMESHAPE(ctx, repo):
